@@ -16,6 +16,7 @@ import (
 	"io"
 	"net"
 	"os"
+	"runtime"
 	"sync"
 	"testing"
 	"time"
@@ -270,6 +271,18 @@ func TestVfC04Run(t *testing.T) {
 	}
 	w := bufio.NewWriterSize(fo, 1<<20)
 	enc := json.NewEncoder(w)
+	// watchdog: never let a mis-parsing driver eat the machine
+	go func() {
+		var ms runtime.MemStats
+		for {
+			time.Sleep(200 * time.Millisecond)
+			runtime.ReadMemStats(&ms)
+			if ms.HeapAlloc > 3<<30 {
+				fmt.Printf("VFC04ABORT heap %d MiB\n", ms.HeapAlloc>>20)
+				os.Exit(3)
+			}
+		}
+	}()
 	var cases []*vfC04Case
 	sc := bufio.NewScanner(fi)
 	sc.Buffer(make([]byte, 1<<20), 1<<26)
